@@ -256,9 +256,6 @@ def apply(tmpl, sup, m, op, gbyim):
         new.POSCAR_occ(text)
         if state_of(new) != before:
             fails.append(('poscar-roundtrip', 'read back {} from state {}'.format(state_of(new), before)))
-        counts = [int(x) for x in text.split('\n')[5].split()]
-        if counts != [len(l) for l in before[1]]:
-            fails.append(('poscar-counts', '{} vs {}'.format(counts, [len(l) for l in before[1]])))
         return fails if fails else None
     elif kind == 'poscar_overlay':
         # a fixed other configuration: species 0 on site 0, last species on site 1
